@@ -42,7 +42,7 @@ def replay(pid, harness, failed, tier, spec):
     os.makedirs(REPLAYS, exist_ok=True)
     kind = spec.get("kind")
     path = os.path.join(REPLAYS, "%s_%s.json" % (pid, harness))
-    if kind not in ("step", "sort", "identity", "unit", "glue", "codec", "proto"):
+    if kind not in ("step", "sort", "identity", "unit", "glue", "codec", "proto", "torn", "coarse"):
         json.dump({"property": pid, "harness": harness, "failed": failed, "note": "no native replay driver for this harness kind"},
                   open(path, "w"), indent=1)
         return {"status": "unavailable", "path": path, "role": None, "detail": "no native replay driver for harness kind %s" % kind}
